@@ -51,6 +51,7 @@ func C19(c *core.Ctx) {
 
 // C17 — UnmarshalYAML enforces the same rules as UnmarshalJSON.
 func C17(c *core.Ctx) {
+	c.NoDefaultModeTwin = true // the property compares the two methods; without --extra-imports only one of them is emitted
 	c.Explanation = engineAText +
 		"C17 (A-SIB): over the same broad union of families, generated with --extra-imports, the two emitted methods of every type (validating and enum unmarshalers) must be the same " +
 		"statement list after rewriting the decode call (json.Unmarshal(value,&X) / value.Decode(&X)) and the anyOf branch call (UnmarshalJSON/UnmarshalYAML); a type with only one of the two is a " +
